@@ -9,7 +9,7 @@ from ..flow import Flow
 from ..model import AnalysisError, Cls, Func, Program, walk_own
 from ..report import Report
 from ..resolve import Scope, dotted
-from ..util import assigned_value, calls_in, returns_of, src
+from ..util import assigned_value, calls_in, iter_stores, returns_of, src
 from .c08 import ListFacts, SAT, _sat
 
 CACHES_MOD = "windpyutils.structures.caches"
@@ -698,3 +698,180 @@ def rule_lookup_source(prog, rep: Report, cf: CacheFacts, rule: str):
                + (f" or from the remembered node(s) self.{', self.'.join(sorted(set(memo)))} (freshness: derived-state rule)" if memo else ""))
     else:
         rep.unrec(rule, f, "lookup-source", "source of the returned payload not recognised")
+
+
+
+def rule_value_parametric(prog, rep: Report, cf: CacheFacts, rule: str, is_value, what: str):
+    """the cache is parametric in the stored values: no method tests a stored value for truth (0, '', [], None are values like any
+    other).  ``is_value(expr, func, flow)`` says whether an expression denotes a stored value."""
+    from ..flow import Flow
+    from .memo import own_methods
+    rep.rule(rule, "the cache does not look into the values: no method uses a stored value (" + what + ", or the value parameter of "
+             "__setitem__) as a truth value (operand of and/or/not, test of if/while/conditional expression): falsy values (0, '', "
+             "[], None, False) are stored and returned like any other", floor=1)
+    bad = []
+    n_ctx = 0
+    for f in own_methods(cf.cls):
+        rep.fn(f)
+        flow = Flow(f.node)
+        vparam = f.params[2] if f.name == "__setitem__" and len(f.params) > 2 else None
+        ctxs = []
+        for n in ast.walk(f.node):
+            if isinstance(n, ast.BoolOp):
+                ctxs += [(v, n) for v in n.values]
+            elif isinstance(n, ast.UnaryOp) and isinstance(n.op, ast.Not):
+                ctxs.append((n.operand, n))
+            elif isinstance(n, (ast.If, ast.While, ast.IfExp, ast.Assert)):
+                ctxs.append((n.test, n))
+            elif isinstance(n, ast.Call) and isinstance(n.func, ast.Name) and n.func.id == "bool" and n.args:
+                ctxs.append((n.args[0], n))
+        for e, where in ctxs:
+            n_ctx += 1
+            cand = [e]
+            if isinstance(e, ast.Name):
+                x = flow.expand(e)
+                if x is not e:
+                    cand.append(x)
+            for c in cand:
+                if (vparam and isinstance(c, ast.Name) and c.id == vparam) or is_value(c, f, flow):
+                    bad.append((f, getattr(where, "lineno", f.node.lineno), f"`{src(e)}` (a stored value) is used as a truth value in "
+                                                                            f"`{src(where)[:70]}`"))
+                    break
+    anchor = cf.getitem
+    if bad:
+        f, ln, why = bad[0]
+        rep.viol(rule, f, "value-parametric", why + ": a stored 0 / '' / [] / None / False is treated as absent",
+                 scenario="c[k] = 0; c.get(k, d) (or the method at hand) answers as if k held nothing", line=ln)
+    else:
+        rep.ok(rule, anchor, "value-parametric", f"{n_ctx} truth-value contexts in {len(own_methods(cf.cls))} methods, none is a stored value")
+
+
+
+def _eval_small(e, env):
+    """value of a closed arithmetic / comparison formula over the names in ``env`` (None = not decidable)"""
+    if isinstance(e, ast.Constant):
+        return e.value
+    if isinstance(e, ast.Name):
+        return env.get(e.id)
+    if isinstance(e, ast.UnaryOp):
+        v = _eval_small(e.operand, env)
+        if v is None and not (isinstance(e.operand, ast.Constant)):
+            return None
+        if isinstance(e.op, ast.Not):
+            return not v
+        if isinstance(e.op, ast.USub) and isinstance(v, (int, float)):
+            return -v
+        return None
+    if isinstance(e, ast.BoolOp):
+        vals = [_eval_small(v, env) for v in e.values]
+        if isinstance(e.op, ast.And):
+            if any(v is not None and not v for v in vals):
+                return False
+            return None if any(v is None for v in vals) else True
+        if any(v is not None and v for v in vals):
+            return True
+        return None if any(v is None for v in vals) else False
+    if isinstance(e, ast.Compare):
+        left = _eval_small(e.left, env)
+        out = True
+        for op, c in zip(e.ops, e.comparators):
+            right = _eval_small(c, env)
+            if isinstance(op, (ast.Is, ast.IsNot)) and isinstance(c, ast.Constant) and c.value is None and left is not None:
+                r = isinstance(op, ast.IsNot)
+            elif left is None or right is None or isinstance(left, bool) or isinstance(right, bool):
+                return None
+            else:
+                r = _cmp(op, left, right)
+                if r is None:
+                    return None
+            out = out and r
+            left = right
+        return out
+    if isinstance(e, ast.BinOp) and isinstance(e.op, (ast.Add, ast.Sub, ast.Mult)):
+        a, b = _eval_small(e.left, env), _eval_small(e.right, env)
+        if isinstance(a, int) and isinstance(b, int):
+            return a + b if isinstance(e.op, ast.Add) else a - b if isinstance(e.op, ast.Sub) else a * b
+        return None
+    if isinstance(e, ast.Call) and isinstance(e.func, ast.Name) and e.func.id == "isinstance" and len(e.args) == 2 \
+            and isinstance(e.args[0], ast.Name) and e.args[0].id in env and src(e.args[1]) in ("int", "(int,)", "numbers.Integral", "Integral"):
+        return True
+    return None
+
+
+class _CapWorld(Client):
+    """state = True while every test on the path was decided by the sample capacity"""
+
+    def __init__(self, name, value):
+        self.env = {name: value}
+
+    def should_inline(self, func, call, ctx):
+        return False
+
+    def refine(self, test, state, ctx):
+        v = _eval_small(test, self.env)
+        if v is None:
+            return (False,), (False,)
+        return ((state,), ()) if v else ((), (state,))
+
+    def event(self, kind, node, state, ctx):
+        if kind == "store" and isinstance(node, ast.Name) and node.id in self.env:
+            self.env = {}          # the parameter is re-bound: nothing is decided from here on (conservative)
+        return (state,)
+
+
+def rule_accepts_capacity(prog, rep: Report, cf: CacheFacts, rule: str):
+    """the property quantifies over every capacity >= 1: no constructor in the chain rejects one"""
+    rep.rule(rule, "every capacity >= 1 is accepted: in each constructor of the cache's MRO, evaluated with the capacity parameter "
+             "set to 1, 2, 3 and 10**6, no `raise` is reached on a path whose tests are all decided by that value", floor=1)
+    n = 0
+    for k in cf.cls.repo_mro():
+        if k.is_external or "__init__" not in k.methods:
+            continue
+        f = k.methods["__init__"]
+        if len(f.params) < 2:
+            continue
+        cap = None
+        for t, v, _ in iter_stores(f.node):
+            d = dotted(t)
+            if d == (f.self_name, cf.cap_field) and isinstance(v, ast.Name) and v.id in f.params:
+                cap = v.id
+        if cap is None:
+            for c in ast.walk(f.node):
+                if isinstance(c, ast.Call) and isinstance(c.func, ast.Attribute) and c.func.attr == "__init__" and c.args \
+                        and isinstance(c.args[0], ast.Name) and c.args[0].id in f.params:
+                    cap = c.args[0].id
+                    break
+                if isinstance(c, ast.Call) and isinstance(c.func, ast.Attribute) and c.func.attr == "__init__":
+                    for kw in c.keywords:
+                        if isinstance(kw.value, ast.Name) and kw.value.id in f.params and kw.arg == cf.cap_field:
+                            cap = kw.value.id
+        rep.fn(f)
+        n += 1
+        role = f"accepts-capacity:{k.name}"
+        if cap is None:
+            if any(isinstance(x, ast.Raise) for x in ast.walk(f.node)):
+                rep.unrec(rule, f, role, "the constructor raises but its capacity parameter was not identified")
+            else:
+                rep.ok(rule, f, role, "no raise in the constructor")
+            continue
+        rejected, undecided = None, False
+        for sample in (1, 2, 3, 10 ** 6):
+            it = Interp(prog, _CapWorld(cap, sample))
+            ex = it.run(f, {True}, cf.cls)
+            if it.unrecognised:
+                undecided = True
+                continue
+            for st, name in ex.exc:
+                if st is True and name is not None:
+                    rejected = rejected or (sample, name)
+        if rejected:
+            sample, name = rejected
+            ln = next((x.lineno for x in ast.walk(f.node) if isinstance(x, ast.Raise)), f.node.lineno)
+            rep.viol(rule, f, role, f"{k.name}.__init__ raises {name} for {cap} = {sample}: a legal capacity is rejected",
+                     scenario=f"{cf.cls.name}({sample}) must construct a cache of capacity {sample}", line=ln)
+        elif undecided:
+            rep.unrec(rule, f, role, "constructor not interpretable")
+        else:
+            rep.ok(rule, f, role, f"no raise reachable for {cap} in (1, 2, 3, 10**6) on a path decided by the value")
+    if n == 0:
+        rep.unrec(rule, cf.getitem, "accepts-capacity", "no constructor with a capacity parameter found")
